@@ -1,10 +1,12 @@
 /- C01 line-protocol driver: prints `model <TAB> spec` for each case line.
 
-   new ty=sv|ipv|stk cap=<n> kind=int|nt     four empty objects of that type
+   new ty=sv|ipv|stk cap=<n> kind=int|nt|hd|kp   four empty objects of that type (kp: key/payload pair, `<` on the key only)
    api_bits / api_assign ty=… cap=… kind=…    static facts (size-type width; assignability)
    api_member ty=… cap=… kind=… member=<op> args…   does the type offer the member behind operation <op>?
                                               model: `supports`, spec: `Spec.offers` (what the std type has)
    <op> [obj=k] [other=j] args…               one operation on object k (default 0)
+   <op>_alias … i=<index>                     the argument is element i of object k itself (`v.insert(pos, v[i])`);
+                                              push_top / emplace_top: `push_back(back())` / `stack::push(top())`
 
    Output of an operation: `<result>;<obj0>;<obj1>;<obj2>;<obj3>` with
    `<obj> = n=<size> e=<empty> f=<full> d=[elements] fb=<front>/<back>`.  The spec column is `*`
@@ -86,6 +88,7 @@ def parseKind (l : Line) : Option Kind :=
   | some "int" => some .triv
   | some "nt" => some .nt
   | some "hd" => some .hd
+  | some "kp" => some .kp
   | _ => none
 
 def parseOpNamed (name : String) (l : Line) : Option Op :=
@@ -94,6 +97,7 @@ def parseOpNamed (name : String) (l : Line) : Option Op :=
   let n := l.nat? "n"
   let xs := l.natList? "xs"
   let j := l.nat? "other"
+  let i := l.nat? "i"
   match name with
   | "push" => x.map (Op.push 0)
   | "push_rv" => x.map (Op.push 1)
@@ -131,6 +135,19 @@ def parseOpNamed (name : String) (l : Line) : Option Op :=
   | "unchecked_push_rv" => x.map (Op.unchecked 1)
   | "unchecked_emplace" => x.map (Op.unchecked 2)
   | "dump" => some .dump
+  -- the argument is element `i` of the object itself
+  | "push_alias" => i.map (Op.pushA 0)
+  | "emplace_back_alias" => i.map (Op.pushA 2)
+  | "push_top" => some (.pushTop 0)
+  | "emplace_top" => some (.pushTop 2)
+  | "insert_alias" => do some (.insertA 0 (← pos) (← i))
+  | "emplace_alias" => do some (.insertA 2 (← pos) (← i))
+  | "insert_fill_alias" => do some (.insertFillA (← pos) (← n) (← i))
+  | "resize_val_alias" => do some (.resizeValA (← n) (← i))
+  | "try_push_alias" => i.map (Op.tryPushA 0)
+  | "try_emplace_alias" => i.map (Op.tryPushA 2)
+  | "unchecked_push_alias" => i.map (Op.uncheckedA 0)
+  | "unchecked_emplace_alias" => i.map (Op.uncheckedA 2)
   | _ => none
 
 def parseOp (l : Line) : Option Op := parseOpNamed l.op l
@@ -155,7 +172,7 @@ def step (st : St) (l : Line) : St × String :=
     match parseTy l, l.nat? "cap", parseKind l, parseInit l with
     | some ty, some cap, some kind, some ini =>
       let s := Sys.init ty cap kind
-      let sp := Spec.SSys.init cap
+      let sp := Spec.SSys.init cap kind
       let specStr := "new;" ++ ((fmtSpecSys cap sp.objs).getD "*")
       let n0 := initSize ty cap ini
       if n0 = 0 then ({ sys := some (s, sp) }, "new;" ++ fmtSys ty cap s.objs ++ "\t" ++ specStr)
